@@ -142,7 +142,7 @@ func init() {
 	register("c03", func(args []string) int {
 		f := parseFlags("c03", args)
 		rep := newReport("C03", f)
-		rep.Rule = "K1 (transaction core): after every commit of histories of allocations, page writes, page / transaction flushes, manual checkpoints and overwrite-page limits 1/2/3/5/1000 the set of pages that have an overwrite page is compared with the Coq model tx_run/tx_commit (theorem commit_reads); K1: random scripts on the page write buffer of a fresh / an existing page (full, partial and oversize SetBytes, Load, in-place modification + MarkDirty, Bytes, Flush, Free) through the public API vs. the Coq model (result kind and bytes after every step); stall scenarios (13-52 pages flushed, rolled back, re-allocated and rewritten while the writer goroutine is slowed down: both writes to a page land in one batch of more than 12 entries; and: manual checkpoint, then the same transaction overwrites the checkpointed pages again - two queued writes per page id without any rollback); random transaction histories (alloc / full+partial SetBytes / Load+MarkDirty / read / free / Flush / page Flush / CheckpointWAL / SetRoot / commit / rollback / close / reopen / concurrent readers) on 8 file configurations; every read inside and outside transactions is compared with a sequential map model; non-trivial = history with at least one committed write; distinct by (config, op-kind multiset)"
+		rep.Rule = "K1 (transaction core): after every commit of histories of allocations, page writes, page / transaction flushes, manual checkpoints and overwrite-page limits 1/2/3/5/1000 the set of pages that have an overwrite page is compared with the Coq model tx_run/tx_commit (theorem commit_reads); K1: random scripts on the page write buffer of a fresh / an existing page (full, partial and oversize SetBytes, Load, in-place modification + MarkDirty, Bytes, Flush, Free) through the public API vs. the Coq model (result kind and bytes after every step); stall scenarios (13-52 pages flushed, rolled back, re-allocated and rewritten while the writer goroutine is slowed down: both writes to a page land in one batch of more than 12 entries; and: manual checkpoint, then the same transaction overwrites the checkpointed pages again - two queued writes per page id without any rollback); directed: pages merely loaded or read in the transaction whose commit runs the automatic checkpoint; random transaction histories (alloc / full+partial SetBytes / Load+MarkDirty / Load / read / free / Flush / page Flush / CheckpointWAL / SetRoot / commit / rollback / close / reopen / concurrent readers) on 8 file configurations; every read inside and outside transactions is compared with a sequential map model; non-trivial = history with at least one committed write; distinct by (config, op-kind multiset)"
 		if f.replay != "" {
 			rp, err := loadHistReplay(f.replay)
 			if err != nil {
@@ -172,6 +172,30 @@ func init() {
 		for i := 0; i < n/10+3; i++ {
 			stallScenario(rep, r)
 			stallScenario2(rep, r)
+		}
+		// directed: pages that are merely loaded (write buffer, not dirty) / read while the commit of their
+		// transaction runs the automatic checkpoint of the overwrite mapping
+		for i := 0; i < 12; i++ {
+			lim := uint(1 + i%3)
+			ops := []engine.Op{{Kind: "begin"}, {Kind: "alloc", N: 6}}
+			for k := 0; k < 6; k++ {
+				ops = append(ops, engine.Op{Kind: "setfull", P: k, Seed: 10 + k})
+			}
+			ops = append(ops, engine.Op{Kind: "commit"}, engine.Op{Kind: "begin", WALLimit: 1000})
+			for k := 0; k < int(lim)+i%2; k++ { // these pages get overwrite pages
+				ops = append(ops, engine.Op{Kind: "setfull", P: k, Seed: 20 + k})
+			}
+			ops = append(ops, engine.Op{Kind: "commit"}, engine.Op{Kind: "verify"}, engine.Op{Kind: "begin", WALLimit: lim})
+			touch := []string{"load", "read", "load"}[i%3]
+			for k := 0; k < int(lim)+i%2; k++ {
+				ops = append(ops, engine.Op{Kind: touch, P: k})
+			}
+			ops = append(ops, engine.Op{Kind: "setfull", P: 5, Seed: 31 + i}, engine.Op{Kind: "commit"}, engine.Op{Kind: "verify"},
+				engine.Op{Kind: "reopen"}, engine.Op{Kind: "verify"},
+				engine.Op{Kind: "begin", WALLimit: lim}, engine.Op{Kind: "setfull", P: 4, Seed: 51 + i}, engine.Op{Kind: "commit"}, engine.Op{Kind: "verify"})
+			cfg := engine.Config{PageSize: 1024, MaxSize: []uint64{0, 128 * 1024}[i%2], InitMetaArea: uint32(4 * (i % 2))}
+			runOracleHistory(rep, cfg, ops, int64(i), "", nil, nil)
+			rep.count("scenario:loaded-clean-pages-at-automatic-checkpoint", 1)
 		}
 		for i := 0; i < n; i++ {
 			hseed := r.Int63()
